@@ -13,13 +13,26 @@ Oracle: blocks = connected components of "gap <= thresh" of the sorted band ener
         window, False -> all strict components contained in it; both return modes; threshold ties guarded,
         a band exactly on a window edge may count as inside or outside (any consistent choice is accepted,
         the multiplet must still not be split)
+  TetraWeights.weights_all_band_groups      : (the groups of tetra=True calculators) keys = all blocks of the centre energies whose
+        span over the k-cell meets the Fermi range + one sea (der=0) / anti-sea (der=-1) group made of whole blocks
   Tabulator                                 : values equal inside every block, Energy = block mean of an
-        independent diagonalisation, also through wannierberri.run (TabulatorAll)
+        independent diagonalisation, also through wannierberri.run (TabulatorAll on Grid and Path) and evaluate_k
   wannierise                                : M-window - a wrapper around the name `select_window_degen`
-        inside wannierisation/wannierise.py checks every frozen / outer window of a real disentanglement
+        inside wannierisation/wannierise.py checks every frozen / outer window of a real disentanglement;
+        M-disentangle - the frozen / free masks handed to Wannierizer.add_kpoint are whole multiplets
 
-In-situ M-borders: wrapper around tetrahedron.get_borders (looked up at call time by get_bands_in_range,
+In-situ: M-borders: wrapper around tetrahedron.get_borders (looked up at call time by get_bands_in_range,
 which Data_K imports at call time) asserts contiguity, cover, inner gaps <= thresh < outer gaps, parity.
+M-groups (Data_K.get_bands_in_range_groups_ik) and M-tetra-groups (TetraWeights.weights_all_band_groups) judge every
+grouping made by tabulators, static (tetra or not, Fermi sea, hole-like, select_bands) and dynamic calculators in
+wannierberri.run on Grid, GridTetra and Path.
+
+Widening review (DESIGN 13/14): arrays of 50-300 bands; strided / read-only / int64 / float32 storage and the caller's array
+left unchanged; numpy-scalar and positional arguments; documented defaults by omission (degen_thresh=-1 of the range functions
+and of Data_K, 1e-4 of the calculators, the empty frozen window); select_bands / ibands as list, tuple, unordered, single,
+empty; only one of Ebandmin / Ebandmax; systems with an API history (rvec.copy, do_ws_dist, npz round trip, warm caches), 2D;
+Data_K, tabulator, TetraWeights and WannierData objects re-used for a second request with other parameters; two coinciding
+Kramers pairs; explicit frozen_states, bands removed by WannierData.select_bands before wannierising, window edges on bands.
 """
 import os
 import shutil
@@ -124,6 +137,8 @@ def gen_array(rng, big=False):
     """sorted energies made of multiplets (sizes 1-6) and the threshold that defines them;
     big: 25-60 multiplets of 1-8 bands (about 50-300 bands, the size of a real ab-initio band set)"""
     mode = ["float", "float", "float", "integer", "zero_thresh", "default"][int(rng.integers(6))]
+    if mode == "zero_thresh" and rng.random() < 0.4:
+        mode = "negative_thresh"          # degeneracy handling switched off (-1, the default of the range functions): every band alone
     nm = int(rng.integers(1, 6))
     sizes = [int(rng.integers(1, 7)) if rng.random() < 0.6 else 1 for _ in range(nm)]
     if big:
@@ -139,7 +154,7 @@ def gen_array(rng, big=False):
             if im < nm - 1:
                 E.append(E[-1] + thresh + float(rng.integers(1, 5)))
         return np.array(E), thresh, mode
-    if mode == "zero_thresh":
+    if mode in ("zero_thresh", "negative_thresh"):
         thresh = 0.0
     elif mode == "default":
         thresh = 1e-2
@@ -154,6 +169,8 @@ def gen_array(rng, big=False):
             E.append(E[-1] + frac * thresh)
         if im < nm - 1:
             E.append(E[-1] + unit * [1.1, 2.0, 10.0, 1e3][int(rng.integers(4))] + (0.0 if thresh > 0 else 0.0))
+    if mode == "negative_thresh":
+        thresh = -1.0                     # the array keeps its exactly coinciding energies
     return np.array(E), thresh, mode
 
 
@@ -243,6 +260,8 @@ def arrays_one(ctx, rng, state, big=False):
     # the array handed to the library: the same numbers as a strided view / read-only / int64 / float32 array
     Ev, form = storage_variant(rng, E, mode)
     ctx.count("storage_" + form)
+    if mode == "negative_thresh":
+        ctx.count("arrays_negative_thresh")
     if big:
         ctx.count("arrays_big")
         if n >= 100:
@@ -1044,6 +1063,9 @@ def run_case(ctx, rng, wb, calc, system, info, NK, ibands, ib_list, scale, wit, 
     if kind != "Path":
         i0 = int(rng.integers(1, 5))
         Epart = np.ascontiguousarray(Ef[i0:])              # starts inside the bands: the Fermi-sea group matters
+        if rng.random() < 0.2:
+            Epart = np.ascontiguousarray(Ef[i0:i0 + 1])    # a single Fermi level
+            ctx.count("run_single_fermi_level")
         calcs["cumdos"] = calc.static.CumDOS(Efermi=Ef, tetra=False, **tkw)
         calcs["cumdos_part"] = calc.static.CumDOS(Efermi=Epart, tetra=False, **tkw)
         calcs["cumdos_tetra"] = calc.static.CumDOS(Efermi=Epart, tetra=True, **tkw)
@@ -1365,7 +1387,13 @@ def case_wannierise(ctx, rng, state):
                 else:
                     mask = np.zeros(NBfull, dtype=bool)
                     mask[keep] = True
-                    wd.select_bands(selected_bands=mask)
+                    try:
+                        wd.select_bands(selected_bands=mask)
+                    except AssertionError as e:
+                        ctx.ev()
+                        ctx.violation("WannierData.select_bands[boolean mask]:raises_AssertionError",
+                                      f"documented form `array((NB,), dtype=bool)` raises: {e}", dict(wit, mask=mask))
+                        return
             ctx.count("wannierise_after_select_bands")
             ctx.ev()
             if not all(np.array_equal(np.asarray(wd.eig.data[ik]), Eall[ik]) for ik in range(NK)):
@@ -1442,20 +1470,46 @@ if __name__ == "__main__":
     harness.main(
         PROP, "exploration", case, setup_fn=setup,
         tiers=dict(quick=dict(cases=4000, shards=8, time=900), thorough=dict(cases=40000, shards=16, time=3000)),
-        rule="sorted arrays of 1-5 multiplets of 1-6 bands (inner gaps 0, 0.1, 0.5, 0.9 of the threshold incl. chains wider "
-             "than the threshold, outer gaps 1.1-1000 thresholds, integer arrays with exact gap == thresh ties, thresh 0 and "
-             "the default), windows with edges between bands, inside multiplets, on bands, infinite, empty or inverted; "
-             "spin/copy-multiplied Hermitian models (exact, chained and split multiplets, Kramers pairs, generic with a large "
-             "threshold) for Data_K groups and tabulators; synthetic Wannier90 data sets for wannierise.  Non-trivial: an "
-             "array with a multiplet of >= 2 bands (distinct by multiplet sizes and mode), a window that cuts a multiplet "
-             "(distinct by sizes, edge, include_degen), a model with a multi-band block at some k",
+        rule="sorted arrays of 1-5 multiplets of 1-6 bands and of 25-60 multiplets of 1-8 bands (inner gaps 0, 0.1, 0.5, 0.9 of the "
+             "threshold incl. chains wider than the threshold, outer gaps 1.1-1000 thresholds, integer arrays with exact gap == thresh "
+             "ties, thresh 0 and the default) stored plain, strided, read-only, as int64 or float32; windows with edges between bands, "
+             "inside multiplets, on bands, infinite, empty or inverted; arguments as python / numpy scalars, by keyword, by position or "
+             "left at the documented default; band selections as array / list / tuple, unordered, single, empty; synthetic "
+             "TetraWeights(Paral) objects (corner energies spread below, around and above the threshold) asked for der 0, -1, 1, 2 and "
+             "for a second Fermi array; spin/copy-multiplied Hermitian models, 3D and 2D, as built or after rvec.copy / do_ws_dist / npz "
+             "round trip (exact, chained and split multiplets, Kramers pairs, two coinciding Kramers pairs, generic with a large "
+             "threshold, the calculators' default threshold) for Data_K groups, tabulators (ibands in all forms, re-used on a second "
+             "Data_K), evaluate_k and run() on Grid / GridTetra / Path with tetra, hole-like, band-selecting and dynamic calculators; "
+             "synthetic Wannier90 data sets for wannierise (explicit frozen states, empty frozen window, bands removed first, second "
+             "call with other windows).  Non-trivial: an array with a multiplet of >= 2 bands (distinct by multiplet sizes and mode), a "
+             "window that cuts a multiplet (distinct by sizes, edge, include_degen), a model with a multi-band block at some k",
         assumptions=["oracle = connected components of gap <= thresh (gap < thresh for the windows), vlib/oracles.py:components",
                      "gaps within 1e-9 of the threshold are skipped for non-integer arrays; exact ties are judged on integer arrays "
                      "for get_borders / get_bands_in_range only (the property says 'at most')",
                      "Kramers grouping is judged for an even number of bands only",
-                     "a band exactly on a window / range edge may be counted inside or outside"],
+                     "a band exactly on a window / range edge may be counted inside or outside",
+                     "tetra groups: finite Emin / Emax of a static calculator (undocumented band-wise cut of the sea) are not generated "
+                     "and not judged in situ",
+                     "explicitly frozen states may split a multiplet (the user's request); only the window part is judged then",
+                     "WannierData.select_bands with a boolean mask only with VERIF_C15_PENDING=1 (raises on the unchanged tree)"],
         required_counters=("get_borders", "get_borders_Kramers", "find_degen", "get_bands_in_range", "select_window_degen",
                            "window_cuts_multiplet", "get_bands_in_range_groups", "tabulator_Energy", "tabulator_Velocity",
                            "tabulator_blocks_with_several_bands", "run_TabulatorAll", "monitor_get_borders_calls",
-                           "wannierise_runs", "monitor_window_calls", "monitor_window_cuts_multiplet"),
+                           "wannierise_runs", "monitor_window_calls", "monitor_window_cuts_multiplet",
+                           # widening review
+                           "arrays_with_100_bands_or_more", "window_cuts_multiplet_big_array", "storage_strided", "storage_readonly",
+                           "storage_int64", "storage_float32", "get_borders_Kramers_negative_thresh",
+                           "get_bands_in_range_default_thresh", "get_bands_in_range_one_span_only", "get_bands_in_range_select_empty",
+                           "get_bands_in_range_select_list", "get_bands_in_range_select_tuple",
+                           "get_bands_in_range_select_unordered_array", "select_window_degen_positional",
+                           "tetra_groups_paral", "tetra_groups_tetra", "tetra_groups_object_reused", "tetra_groups_select_bands",
+                           "tetra_sea_group_of_several_blocks", "groups_select_bands", "groups_default_arguments",
+                           "groups_after_tabulation", "monitor_groups_calls", "monitor_tetra_groups_judged",
+                           "tabulator_InvMass", "tabulator_reused_on_second_data", "evaluate_k_default_thresh",
+                           "ibands_unordered_list", "ibands_tuple", "ibands_list", "ibands_single",
+                           "history_rvec_copy", "history_ws_dist", "history_npz_roundtrip", "system_caches_warm", "system_2D",
+                           "run_on_Grid", "run_on_GridTetra", "run_on_Path",
+                           "monitor_add_kpoint_calls", "disentangle_masks_judged", "disentangle_window_cuts_multiplet",
+                           "wannierise_second_call_other_windows", "wannierise_explicit_frozen_states",
+                           "wannierise_after_select_bands", "wannierise_nothing_frozen", "wannierise_window_edge_on_band"),
     )
